@@ -631,8 +631,16 @@ class SQLDataStore(datastore.DataStore):
 
       # Split the trial-related metadata by Trial.
       split_metadata = collections.defaultdict(list)
+      # (By the Trial's number: '1' and '01' name the same Trial, and the updates
+      # of one Trial must be applied in the order they were given.)
       for md in trial_metadata:
-        split_metadata[md.trial_id].append(md)
+        try:
+          trial_number = s_resource.trial_resource(md.trial_id).trial_id
+        except ValueError:
+          # A malformed trial id: undo what this call has written so far.
+          self._connection.rollback()
+          raise
+        split_metadata[trial_number].append(md)
 
       # Now, we update one Trial at a time:
       for trial_id, md_list in split_metadata.items():
